@@ -7,11 +7,13 @@ package checkpoint
 //vf:job C14 quick VF_C14_Version ver=0..3
 //vf:job C19 quick VF_C14_Load l0=4 l1=5 secret=1
 //vf:replayE C19 VF_C14_Load
-//vf:job C14 thorough VF_C14_Load3 l0=1..6 l1=0..6 l2=1..6
+//vf:job C14 thorough VF_C14_Load3 l0=1..3 l1=0..3 l2=1..3
+//vf:job C14 thorough VF_C14_Load3 l0=4..6 l1=0 l2=1..6
+//vf:job C14 thorough VF_C14_Load3 l0=4..6 l1=3 l2=1..3
 //vf:replayE C14 VF_C14_Load VF_C14_Version VF_C14_Load3
 //vf:stub C14 utils.OpenRedisConn: returns the model target (tiny Redis); its fidelity to a real Redis is trusted
 //vf:assume C14 own fields are exactly <addr>-runid, <addr>-offset, <addr>-version; candidates are the databases INFO keyspace lists whose checkpoint key exists; ties between equal offsets may resolve to any tied database
-//vf:outside C14 cluster targets (isCluster); more than 3 databases; offsets with more than 2 digits
+//vf:outside C14 cluster targets (isCluster); more than 3 databases; offsets with more than 2 digits; three databases that all hold multi-source layouts (the thorough tier runs 63 of the 252 layout triples: all triples over the single-source layouts, and the multi-source layouts 4..6 in the first database against simple others)
 
 import (
 	"strconv"
